@@ -425,6 +425,10 @@ impl Pair {
                         // opened connection to LISTEN (the stack's listen binding stays)
                         self.sides[side].listening = true;
                         self.sides[side].returned_to_listen += 1;
+                        // the next incarnation gets its own initial sequence number, as in the stack
+                        // (tcp.rs draws a fresh random one per SYN that reaches a listen binding): with the
+                        // same one, segments of the aborted incarnation would be indistinguishable from new ones
+                        self.sides[side].iss = self.sides[side].iss.wrapping_add(0x2357_1113);
                         // what the application wrote into the aborted incarnation is gone with it
                         // (RFC: the retransmission queue is flushed, the user need not be informed)
                         self.sides[side].submitted.clear();
